@@ -3,7 +3,7 @@
    multiset of diagnostics publications in the harness' format; "CRASH:<kind>" when the model
    says the server dies.   argv.(1) = "code" (default; the code as it is) | "patched" | "<purge><self>"
    (two 0/1 flags selecting the proposed patches individually);
-   with "state" as second argument also prints the final bookkeeping state (for hook H8). *)
+   with "state" as second argument also prints the bookkeeping state after every step (for hook H8). *)
 open C19_model
 
 let rec nat_of_int n = if n <= 0 then O else S (nat_of_int (n - 1))
@@ -123,13 +123,15 @@ let () =
         let tr = trace_from cfg (fun l -> l) disk fuel empty_world ops in
         let last = ref None in
         let dead = ref false in
+        let states = ref [] in
         let steps = List.map (function
             | Ok w -> last := Some w; if has_dead_analysis w then dead := true;
+                if want_state then states := show_state n w :: !states;
                 String.concat "," (List.sort compare (List.map show_pub w.w_log))
             | Crash Overflow -> last := None; "CRASH"
             | Crash Panic -> last := None; "CRASH") tr in
         let kind = List.fold_left (fun acc r -> match r with Crash Overflow -> "overflow" | Crash Panic -> "panic" | _ -> acc) "-" tr in
-        let st = if want_state then (match !last with Some w -> " | " ^ show_state n w | None -> " | -") else "" in
+        let st = if want_state then (match !last with Some _ -> " | " ^ String.concat " || " (List.rev !states) | None -> " | -") else "" in
         print_endline (String.concat ";" steps ^ " # " ^ kind ^ (if !dead then " dead" else " nodead") ^ st)
       end
     done
